@@ -43,21 +43,18 @@ where
                     SPACE | HORIZONTAL_TAB => &src[..i],
                     LINE_FEED => {
                         is_eol = true;
-
-                        let line = &src[..i];
-
-                        if line.ends_with(&[CARRIAGE_RETURN]) {
-                            // SAFETY: `line.len()` is > 0.
-                            let end = line.len() - 1;
-                            &line[..end]
-                        } else {
-                            line
-                        }
+                        &src[..i]
                     }
                     _ => unreachable!(),
                 };
 
                 definition.name_mut().extend(name_src);
+
+                // The carriage return may have been delivered in a previous buffer, so it is
+                // stripped from the assembled name rather than from the current buffer.
+                if is_eol && definition.name_mut().ends_with(&[CARRIAGE_RETURN]) {
+                    definition.name_mut().pop();
+                }
 
                 (true, i + 1)
             }
